@@ -11,6 +11,8 @@ Transcribed (snapshot ef0888e + the `fix:` commits listed in findings/C18.txt):
   (the third line ends at the first line feed outside quoted field values since c988361; `readFramesOld` is the snapshot's reader);
 * `replay.go` `replayStreamFromChan` / `replayBatchFromChan`: `diff = zero − first`, wait time, shifted time,
   batch `tmax` rule                                                                              → `replayStream`, `replayBatches`;
+  the same loops as fed DIRECTLY from a channel by services/replay (`replay-live`), incl. the "Emit empty batch"
+  branch of `replayBatchFromChan` that only this path reaches                                    → `liveStreamReplay`, `replayLiveGo`;
 * `edge/messages.go` `bufferedBatchMessage.MarshalJSON/UnmarshalJSON`, `readBatchFromIO`: at VALUE level — numbers
   come back as float64 (plain `json.Unmarshal` into `interface{}`), a point without tags gets the batch's tags,
   dimensions = sorted tag keys, group id recomputed, empty batches are skipped by the reader    → `decodeBatch`, `readBatches`.
@@ -18,7 +20,9 @@ Transcribed (snapshot ef0888e + the `fix:` commits listed in findings/C18.txt):
 Abstracted / external (tied by the correspondence run only):
 * the influxdb line-protocol PARSER (`models.ParsePointsWithPrecision`, ~900 lines): `parseLine` below is a small
   executable parser for the writer's image (split at unescaped separators, unescape, classify the value by its
-  syntax); theorems that need `parse ∘ write = id` take it as the explicit hypothesis `LPLaw`;
+  syntax; `skipWhitespace` before the measurement and before the field section as in `scanKey`/`scanFields`);
+  theorems that need `parse ∘ write = id` take it as the explicit hypothesis `LPLaw` (proved on `LPDomain`);
+  tied to the real parser on every recorded line and on lines generated from this grammar (harness `lp` cases);
 * float ↔ text (`strconv` 'f' -1 / `ParseFloat`) is an oracle table carried in the op line (`FloatCodec`);
 * `encoding/json` (string escaping, RFC 3339 times, map order): strings (valid UTF-8), bools, finite floats and
   times are assumed to round-trip; integers are decoded as the nearest float64 (`f64OfInt`, exact model of
@@ -373,7 +377,8 @@ def parseLine (F : FloatCodec) (mult : Int) (line : Bytes) : LineResult :=
     if c = HASH then .nopoint else
     match splitUnesc SP false s false with
     | (key, some rest) =>
-      let rest := rest.dropWhile (· = SP)
+      -- `scanFields` starts with `skipWhitespace` (space, TAB, NUL): a field key that begins with TAB or NUL loses it
+      let rest := skipWS rest
       match splitUnesc SP true rest false with
       | (flds, trest) =>
         let tb := ((trest.getD []).dropWhile (· = SP))
@@ -528,6 +533,64 @@ def replayBatchesGo (shiftTmax : Bool) (zero : Int) (recTime : Bool) : Option In
 
 def batchRoundTrip (shiftTmax : Bool) (zero : Int) (recTime : Bool) (bs : List Batch) : Replayed BOut :=
   let items := replayBatchesGo shiftTmax zero recTime none (readBatches bs)
+  ⟨.ok, items, 1, items.length⟩
+
+/-! ### Live replays: `ReplayStreamFromChan` / `ReplayBatchFromChan` fed directly from a channel
+
+`services/replay` feeds the replay loops directly (no recording in between) for `replay-live`: a batch task's queries
+(`doLiveBatchReplay` → `startRecordBatch`, batch time = the query's stop time) and a query (`doLiveQueryReplay` →
+`runQueryStream` / `runQueryBatch`, batch time = zero time for a series without values). Nothing is written or parsed
+there, so the deliveries are the items themselves — every name, every field type — with the times shifted; and batches
+WITHOUT points reach `replayBatchFromChan` (its "Emit empty batch" branch; `readBatchFromIO` never lets one through). -/
+
+/-- Record nothing, replay with `ReplayStreamFromChan`. -/
+def liveStreamReplay (zero : Int) (recTime : Bool) (ps : List SPoint) : Replayed SOut :=
+  let items := replayStream zero recTime ps
+  ⟨.ok, items, 1, items.length⟩
+
+/-- A batch on a channel: `hasT = false` is `b.Begin().Time().IsZero()` (then `b.tmax` is meaningless, 0). -/
+structure LBatch where
+  b : Batch
+  hasT : Bool
+deriving DecidableEq, Repr, Inhabited
+
+/-- One delivered batch of a live replay: the batch, whether its batch time is a non-zero time, and the argument of the
+`clck.Until` call before it (`none`: the empty-batch branch does not wait). -/
+structure LOut where
+  b : Batch
+  hasT : Bool
+  until_ : Option Int
+deriving DecidableEq, Repr, Inhabited
+
+/-- `replayBatchFromChan` on everything a channel can carry. State: `diff?` (`start`/`diff`, set by the first item that
+carries a time) and `prev` (the variable `tmax`: batch time of the last delivered batch that had one, `none` = zero time).
+`fixed = true` is the code since the `fix:` commit for empty batches: the batch time of a batch without points is
+shifted like every other timestamp and, when it is the first timestamp of the replay, anchors the offset;
+`fixed = false` is the snapshot (`tmax = b.Begin().Time().UTC()` unshifted, `start` untouched). -/
+def replayLiveGo (fixed : Bool) (zero : Int) (recTime : Bool) : Option Int → Option Int → List LBatch → List LOut
+  | _, _, [] => []
+  | diff?, prev, lb :: rest =>
+    let b := lb.b
+    if b.points.isEmpty then
+      if !lb.hasT then
+        -- "Set tmax to last batch if not set."
+        ⟨{ b with tmax := prev.getD 0 }, prev.isSome, none⟩ :: replayLiveGo fixed zero recTime diff? prev rest
+      else
+        let diff?' := if fixed then some (diff?.getD (zero - b.tmax)) else diff?
+        let t := if fixed ∧ !recTime then b.tmax + diff?'.getD 0 else b.tmax
+        ⟨{ b with tmax := t }, true, none⟩ :: replayLiveGo fixed zero recTime diff?' (some t) rest
+    else
+      let diff := diff?.getD (zero - b.firstTime)
+      let pts := if recTime then b.points else b.points.map (fun p => { p with time := p.time + diff })
+      let lastT := if recTime then lastTime b.points + diff else lastTime pts
+      let lpt := lastTime pts
+      -- a zero batch time is before every point
+      let tmax := if lb.hasT then (let t0 := if recTime then b.tmax else b.tmax + diff; if t0 < lpt then lpt else t0) else lpt
+      ⟨{ b with points := pts, tmax := tmax }, true, some lastT⟩ :: replayLiveGo fixed zero recTime (some diff) (some tmax) rest
+
+/-- Record nothing, replay one source with `ReplayBatchFromChan`. -/
+def liveBatchReplay (fixed : Bool) (zero : Int) (recTime : Bool) (bs : List LBatch) : Replayed LOut :=
+  let items := replayLiveGo fixed zero recTime none none bs
   ⟨.ok, items, 1, items.length⟩
 
 end Kap.C18
